@@ -296,6 +296,15 @@ func Rewrite(file []byte, leaves []Leaf, rng *rand.Rand, o RewriteOpts) ([]byte,
 	return append(out, "PAR1"...), nil
 }
 
+func footerOf(file []byte) (*sch.FileMetaData, error) {
+	n := len(file)
+	flen := int(binary.LittleEndian.Uint32(file[n-8 : n-4]))
+	fstart := n - 8 - flen
+	fmd := &sch.FileMetaData{}
+	err := fmd.Read(context.TODO(), thrift.NewTCompactProtocol(&thrift.StreamTransport{Reader: bytes.NewReader(file[fstart : n-8])}))
+	return fmd, err
+}
+
 // SameColumns decodes both files independently and compares levels and values of every column chunk.
 func SameColumns(a, b []byte, leaves []Leaf) string {
 	dec := func(file []byte) ([][]*colData, error) {
